@@ -1,7 +1,7 @@
 import Secp.Proofs.DecodeRT
 import Secp.Proofs.DecodeTies
 import Secp.Proofs.ElementCodecTies
-import Secp.Proofs.BytesTies
+import Secp.Proofs.BytesTiesP
 /-!
 # C03 — element decoders accept exactly the canonical encodings of curve points
 
